@@ -148,3 +148,31 @@ theorem clampSpec_range (P : Nat) (hP : 1 ≤ P) (s : Bool) (v : Int) :
   cases s <;> simp only [clampSpec] <;> simp <;> (try split) <;> omega
 
 end J2kQuant
+
+namespace J2kQuant
+
+theorem fixedOfDyadic_ne_zero (m : Nat) (e : Int) : fixedOfDyadic m e ≠ 0 := by
+  simp only [fixedOfDyadic]
+  generalize (if 0 ≤ e + 13 then m * 2 ^ (e + 13).toNat else m / 2 ^ (-(e + 13)).toNat) = f
+  split <;> omega
+
+/-- requested (dyadic) step versus the fixed-point value: for e+13 < 0, fixed·2^k ≤ m < (fixed+1)·2^k (k = −e−13),
+    unless the step is below 2^-13 (then fixed is forced to 1) -/
+theorem fixed_floor (m : Nat) (e : Int) (he : e + 13 < 0) (hm : 2 ^ (-(e + 13)).toNat ≤ m) :
+    fixedOfDyadic m e * 2 ^ (-(e + 13)).toNat ≤ m ∧ m < (fixedOfDyadic m e + 1) * 2 ^ (-(e + 13)).toNat := by
+  have hp : 0 < 2 ^ (-(e + 13)).toNat := Nat.pow_pos (by decide)
+  have hne : ¬ (0 ≤ e + 13) := by omega
+  have hq : 1 ≤ m / 2 ^ (-(e + 13)).toNat := (Nat.le_div_iff_mul_le hp).2 (by simpa using hm)
+  have hf : fixedOfDyadic m e = m / 2 ^ (-(e + 13)).toNat := by
+    simp only [fixedOfDyadic, hne, if_false]
+    rw [if_neg (by omega)]
+  rw [hf]
+  have h1 := Nat.div_add_mod m (2 ^ (-(e + 13)).toNat)
+  have h2 := Nat.mod_lt m hp
+  generalize 2 ^ (-(e + 13)).toNat = K at *
+  generalize m / K = q at *
+  constructor
+  · rw [Nat.mul_comm]; omega
+  · rw [Nat.add_mul, Nat.one_mul, Nat.mul_comm]; omega
+
+end J2kQuant
